@@ -298,8 +298,8 @@ def handle (line : String) : Except String Json := do
     let agg ← jAggs (← field j "aggs") aggFn
     pure (rowsJson (aggregate cfg (fun r => keys.map (SqlglotModel.Sem.getCol r)) agg (!keys.isEmpty) none none rows))
   | "subq_cmp" =>
-    match subqueryComparison cfg (← (← field j "fn").getStr?) (← (← field j "quantifier").getStr?) (← jVal (← field j "v"))
-        (← jRow (← field j "xs")) with
+    match subqueryComparisonEnv SqlglotModel.Generated.C11.subqCmpWrapped cfg (← (← field j "fn").getStr?)
+        (← (← field j "quantifier").getStr?) (← jVal (← field j "v")) (← jRow (← field j "xs")) with
     | some v => pure (vJson v)
     | none => pure evalErr
   | _ => throw "unknown op"
